@@ -71,6 +71,23 @@ Proof.
   - apply sel_nil_length. cbn [rows]. rewrite map_length. reflexivity.
 Qed.
 
+(* selecting C inside a selection K gives the projection on C *)
+Lemma scalar_sub tms sfx :
+  not_group sfx = true -> (forall kt, In kt tms -> scalar_term (snd kt) = true) ->
+  forall K C A R, C <> [] -> incl C K -> incl K (map fst tms) ->
+  sql_select fl true (Some tms) (Some K) sfx A = Some R -> sql_select fl true (Some tms) (Some C) sfx A = Some (sel C R).
+Proof.
+  intros NG HS K C A R NC ICK IK E.
+  assert (forall k, In k K -> scalar_term (term_of tms k) = true) as HK.
+  { intros k Ik. unfold term_of. destruct (dict_get tms k) as [t|] eqn:G; [|reflexivity]. apply dict_get_In in G. apply (HS _ G). }
+  assert (K <> []) as NK by (destruct C as [|c0 C']; [congruence|]; intros X; specialize (ICK c0 (or_introl eq_refl)); rewrite X in ICK; destruct ICK).
+  pose proof (sql_select_scalar true tms K sfx A NK NG HK) as EK.
+  pose proof (sql_select_scalar true tms C sfx A NC NG (fun k Ik => HK k (ICK k Ik))) as EC.
+  pose proof (eq_trans (eq_sym EK) E) as X. injection X as <-.
+  refine (eq_trans EC _). f_equal. unfold sem_select_cols. cbn [cols rows]. f_equal. rewrite map_map. apply map_ext. intros r.
+  apply map_ext_in. intros k Ik. rewrite get_map_cols. assert (mem k K = true) as M by (apply mem_In, ICK, Ik). rewrite M. reflexivity.
+Qed.
+
 Lemma star_is sfx A : not_group sfx = true -> sql_select fl true None None sfx A = Some (mktable (cols A) (sfx_rows sfx A)).
 Proof. intros NG. destruct A as [ca ra]. unfold sql_select. simpl. destruct sfx; try discriminate; reflexivity. Qed.
 
